@@ -16,6 +16,11 @@
   Iterative pieces are stated relative to the outcome of the generated loop
   (`hloop : loop … = LoopR.done s`): the start state, the tolerance and the fuel appear in `hloop`.
 
+  `checked_gamma_lr` has FOUR prologue guards (NaN, `a` domain, `x` domain, `a ≈ 0`); the former fifth one
+  (`almost_eq(x, 0.0, DEFAULT_F64_ACC) ⇒ Ok(0.0)`) was removed from the source (commit 9f2f5b7), so the pins of the
+  underflow / series / continued-fraction pieces carry no hypothesis about `almost_eq x 0.0`
+  (`checked_gamma_lr_past_a_zero`).
+
   The NaN / domain-error prologue of `checked_gamma_lr/ur` is also covered (with exact error
   domains) by `Statrs.Props.C12` (`Props/C12/Twins.lean`); it is restated here per guard so that
   the table is complete in one place.
@@ -72,14 +77,15 @@ theorem ln_gamma_lanczos (x : α) (h : ¬ x < (0.5 : α)) :
       + ((x - (0.5 : α)) * (RFun.ln (((x - (0.5 : α)) + (F.gamma.GAMMA_R (α := α))) / (RFun.e : α)))) := by
   unfold F.gamma.ln_gamma; rw [if_neg h]; rfl
 
-/-! ## 2. constants of the incomplete gamma functions (gamma.rs:198–208, 292–305) -/
+/-! ## 2. constants of the incomplete gamma functions (gamma.rs:198–208, 292–301) -/
 
 theorem gammaIncEps_eq : (gammaIncEps : α) = (1e-15 : α) := rfl
 theorem gammaIncBig_eq : (gammaIncBig : α) = (4503599627370496.0 : α) := rfl
 theorem gammaIncBigInv_eq : (gammaIncBigInv : α) = (2.22044604925031308085e-16 : α) := rfl
 theorem gammaIncUnderflow_eq : (gammaIncUnderflow : α) = -(709.78271289338399 : α) := rfl
 theorem gammaIncAx_eq (a x : α) : gammaIncAx a x = ((a * (RFun.ln x)) - x) - (F.gamma.ln_gamma a) := rfl
-/-- prec.rs:10 — the accuracy of the `a ≈ 0`, `x ≈ 0` shortcuts -/
+/-- prec.rs:10 — the accuracy of the `a ≈ 0` shortcut (the `x ≈ 0` shortcut of `checked_gamma_lr` that used the
+    same constant was removed from the source, commit 9f2f5b7) -/
 theorem DEFAULT_F64_ACC_eq : (R.prec.DEFAULT_F64_ACC : α) = (0.0000000000000011102230246251565 : α) := rfl
 /-- prec.rs:14–21 — `almost_eq a b acc` is `|a − b| ≤ acc` unless both are infinite -/
 theorem almost_eq_finite (a b acc : α) (h : ¬ (RFun.isInf a = true ∧ RFun.isInf b = true)) :
@@ -88,7 +94,7 @@ theorem almost_eq_finite (a b acc : α) (h : ¬ (RFun.isInf a = true ∧ RFun.is
 
 /-! ## 3. the lifted loops, one step each -/
 
-/-- gamma.rs:315–323 — series: `r2 += 1; c2 *= x/r2; ans2 += c2; stop when c2/ans2 ≤ eps` -/
+/-- gamma.rs:312–320 — series: `r2 += 1; c2 *= x/r2; ans2 += c2; stop when c2/ans2 ≤ eps` -/
 theorem gamma_lr_loop1_step (fuel : Nat) (eps x r2 c2 ans2 : α) :
     F.gamma.checked_gamma_lr.loop1 (fuel + 1) eps x r2 c2 ans2 =
       if ((c2 * (x / (r2 + (1.0 : α)))) / (ans2 + (c2 * (x / (r2 + (1.0 : α)))))) ≤ eps then
@@ -110,7 +116,7 @@ theorem gamma_lr_loop1_step_spec (fuel : Nat) (eps x r2 c2 ans2 : α) :
 def cfRescale (big big_inv p p3 p2 q3 q2 : α) : α × α × α × α :=
   if big < RFun.abs p then (p3 * big_inv, p2 * big_inv, q3 * big_inv, q2 * big_inv) else (p3, p2, q3, q2)
 
-/-- gamma.rs:337–367 — continued fraction of `checked_gamma_lr` (integer counter `c`):
+/-- gamma.rs:334–364 — continued fraction of `checked_gamma_lr` (integer counter `c`):
     `y += 1; z += 2; c += 1; p = p2·z − p3·y·c; q = q2·z − q3·y·c`; shift; rescale when `big < |p|`;
     when `q ≠ 0`: `ans = p/q`, stop when `|(ans_old − ans)/ans| ≤ eps` -/
 theorem gamma_lr_loop3_step (fuel : Nat) (big big_inv eps y z : α) (c : Int) (p3 p2 q3 q2 ans : α) :
@@ -152,7 +158,7 @@ theorem gamma_ur_loop1_step (fuel : Nat) (big big_inv eps y z c pkm2 pkm1 qkm2 q
 theorem gamma_ur_loop1_zero (big big_inv eps y z c pkm2 pkm1 qkm2 qkm1 ans : α) :
     F.gamma.checked_gamma_ur.loop1 0 big big_inv eps y z c pkm2 pkm1 qkm2 qkm1 ans = LoopR.hang := rfl
 
-/-- gamma.rs:398–401 — recurrence `while z < c { result −= 1/z; z += 1 }` -/
+/-- gamma.rs:395–398 — recurrence `while z < c { result −= 1/z; z += 1 }` -/
 theorem digamma_loop1_step (fuel : Nat) (c result z : α) :
     F.gamma.digamma.loop1 (fuel + 1) c result z =
       if z < c then F.gamma.digamma.loop1 fuel c (result - ((1.0 : α) / z)) (z + (1.0 : α))
@@ -160,7 +166,7 @@ theorem digamma_loop1_step (fuel : Nat) (c result z : α) :
   rw [F.gamma.digamma.loop1]
 theorem digamma_loop1_zero (c result z : α) : F.gamma.digamma.loop1 0 c result z = LoopR.hang := rfl
 
-/-- gamma.rs:425–428 — `while i > 1e-15 { y += i·signum(x − ψ(y)); i /= 2 }` -/
+/-- gamma.rs:422–425 — `while i > 1e-15 { y += i·signum(x − ψ(y)); i /= 2 }` -/
 theorem inv_digamma_loop1_step (fuel : Nat) (x y i : α) :
     F.gamma.inv_digamma.loop1 (fuel + 1) x y i =
       if (1e-15 : α) < i then
@@ -169,14 +175,13 @@ theorem inv_digamma_loop1_step (fuel : Nat) (x y i : α) :
   rw [F.gamma.inv_digamma.loop1]
 theorem inv_digamma_loop1_zero (x y i : α) : F.gamma.inv_digamma.loop1 0 x y i = LoopR.hang := rfl
 
-/-! ## 4. `checked_gamma_lr` (gamma.rs:281–370) -/
+/-! ## 4. `checked_gamma_lr` (gamma.rs:281–367) -/
 
 theorem gammaLrSpec_chain (a x : α) : gammaLrSpec a x =
     if (RFun.isNaN a = true) ∨ (RFun.isNaN x = true) then .ok (RFun.nan : α) else
     if (a ≤ (0.0 : α)) ∨ ((a == (RFun.inf : α)) = true) then .error GammaFuncError.AInvalid else
     if (x ≤ (0.0 : α)) ∨ ((x == (RFun.inf : α)) = true) then .error GammaFuncError.XInvalid else
     if (R.prec.almost_eq a (0.0 : α) (R.prec.DEFAULT_F64_ACC (α := α))) = true then .ok (1.0 : α) else
-    if (R.prec.almost_eq x (0.0 : α) (R.prec.DEFAULT_F64_ACC (α := α))) = true then .ok (0.0 : α) else
     if gammaIncAx a x < -(709.78271289338399 : α) then (if a < x then .ok (1.0 : α) else .ok (0.0 : α)) else
     if (x ≤ (1.0 : α)) ∨ (x ≤ a) then
       gammaLrSeriesOut (gammaIncAx a x) a
@@ -187,7 +192,7 @@ theorem gammaLrSpec_chain (a x : α) : gammaLrSpec a x =
         (((x + ((1.0 : α) - a)) + (1.0 : α)) * x)
         ((x + (1.0 : α)) / (((x + ((1.0 : α) - a)) + (1.0 : α)) * x))) := rfl
 
-/-- gamma.rs:281–370: the generated `checked_gamma_lr` IS the Spec table `gammaLrSpec` -/
+/-- gamma.rs:281–367: the generated `checked_gamma_lr` IS the Spec table `gammaLrSpec` -/
 theorem checked_gamma_lr_eq_spec (a x : α) : F.gamma.checked_gamma_lr a x = gammaLrSpec a x := by
   rw [gammaLrSpec_chain]; unfold F.gamma.checked_gamma_lr gammaIncAx
   dsimp only
@@ -213,30 +218,38 @@ theorem checked_gamma_lr_a_zero (a x : α) (hn : ¬ ((RFun.isNaN a = true) ∨ (
     (haz : (R.prec.almost_eq a (0.0 : α) (R.prec.DEFAULT_F64_ACC (α := α))) = true) :
     F.gamma.checked_gamma_lr a x = .ok (1.0 : α) := by
   unfold F.gamma.checked_gamma_lr; simp only [if_neg hn, if_neg ha, if_neg hx, if_pos haz]
-/-- `x ≈ 0`: `P(a, 0) = 0` -/
-theorem checked_gamma_lr_x_zero (a x : α) (hn : ¬ ((RFun.isNaN a = true) ∨ (RFun.isNaN x = true)))
+/-- past the `a ≈ 0` guard there is NO `x ≈ 0` shortcut (the `almost_eq(x, 0.0, DEFAULT_F64_ACC) ⇒ Ok(0.0)` of
+    earlier versions was removed, commit 9f2f5b7): whatever `almost_eq x 0.0 …` says, the function goes on with the
+    underflow test on `ax`, then the series / continued-fraction split -/
+theorem checked_gamma_lr_past_a_zero (a x : α) (hn : ¬ ((RFun.isNaN a = true) ∨ (RFun.isNaN x = true)))
     (ha : ¬ ((a ≤ (0.0 : α)) ∨ ((a == (RFun.inf : α)) = true)))
     (hx : ¬ ((x ≤ (0.0 : α)) ∨ ((x == (RFun.inf : α)) = true)))
-    (haz : ¬ (R.prec.almost_eq a (0.0 : α) (R.prec.DEFAULT_F64_ACC (α := α))) = true)
-    (hxz : (R.prec.almost_eq x (0.0 : α) (R.prec.DEFAULT_F64_ACC (α := α))) = true) :
-    F.gamma.checked_gamma_lr a x = .ok (0.0 : α) := by
-  unfold F.gamma.checked_gamma_lr; simp only [if_neg hn, if_neg ha, if_neg hx, if_neg haz, if_pos hxz]
+    (haz : ¬ (R.prec.almost_eq a (0.0 : α) (R.prec.DEFAULT_F64_ACC (α := α))) = true) :
+    F.gamma.checked_gamma_lr a x =
+      if gammaIncAx a x < -(709.78271289338399 : α) then (if a < x then .ok (1.0 : α) else .ok (0.0 : α)) else
+      if (x ≤ (1.0 : α)) ∨ (x ≤ a) then
+        gammaLrSeriesOut (gammaIncAx a x) a
+          (F.gamma.checked_gamma_lr.loop1 loopFuel (1e-15 : α) x a (1.0 : α) (1.0 : α))
+      else gammaLrCfOut (gammaIncAx a x)
+        (F.gamma.checked_gamma_lr.loop3 loopFuel (4503599627370496.0 : α) (2.22044604925031308085e-16 : α) (1e-15 : α)
+          ((1.0 : α) - a) ((x + ((1.0 : α) - a)) + (1.0 : α)) (0 : Int) (1.0 : α) (x + (1.0 : α)) x
+          (((x + ((1.0 : α) - a)) + (1.0 : α)) * x)
+          ((x + (1.0 : α)) / (((x + ((1.0 : α) - a)) + (1.0 : α)) * x))) := by
+  rw [checked_gamma_lr_eq_spec, gammaLrSpec_chain, if_neg hn, if_neg ha, if_neg hx, if_neg haz]
 /-- `ax < −709.78271289338399`: the prefactor underflows; `1` right of the mode (`a < x`), else `0` -/
 theorem checked_gamma_lr_underflow (a x : α) (hn : ¬ ((RFun.isNaN a = true) ∨ (RFun.isNaN x = true)))
     (ha : ¬ ((a ≤ (0.0 : α)) ∨ ((a == (RFun.inf : α)) = true)))
     (hx : ¬ ((x ≤ (0.0 : α)) ∨ ((x == (RFun.inf : α)) = true)))
     (haz : ¬ (R.prec.almost_eq a (0.0 : α) (R.prec.DEFAULT_F64_ACC (α := α))) = true)
-    (hxz : ¬ (R.prec.almost_eq x (0.0 : α) (R.prec.DEFAULT_F64_ACC (α := α))) = true)
     (hu : (((a * (RFun.ln x)) - x) - (F.gamma.ln_gamma a)) < -(709.78271289338399 : α)) :
     F.gamma.checked_gamma_lr a x = if a < x then .ok (1.0 : α) else .ok (0.0 : α) := by
-  unfold F.gamma.checked_gamma_lr; simp only [if_neg hn, if_neg ha, if_neg hx, if_neg haz, if_neg hxz, if_pos hu]
+  unfold F.gamma.checked_gamma_lr; simp only [if_neg hn, if_neg ha, if_neg hx, if_neg haz, if_pos hu]
 /-- `x ≤ 1 ∨ x ≤ a`: SERIES from `(r2, c2, ans2) = (a, 1, 1)` with `eps = 1e-15`;
     result `exp(ax)·ans2 / a` -/
 theorem checked_gamma_lr_series (a x r2 c2 ans2 : α) (hn : ¬ ((RFun.isNaN a = true) ∨ (RFun.isNaN x = true)))
     (ha : ¬ ((a ≤ (0.0 : α)) ∨ ((a == (RFun.inf : α)) = true)))
     (hx : ¬ ((x ≤ (0.0 : α)) ∨ ((x == (RFun.inf : α)) = true)))
     (haz : ¬ (R.prec.almost_eq a (0.0 : α) (R.prec.DEFAULT_F64_ACC (α := α))) = true)
-    (hxz : ¬ (R.prec.almost_eq x (0.0 : α) (R.prec.DEFAULT_F64_ACC (α := α))) = true)
     (hu : ¬ (((a * (RFun.ln x)) - x) - (F.gamma.ln_gamma a)) < -(709.78271289338399 : α))
     (hs : (x ≤ (1.0 : α)) ∨ (x ≤ a))
     (hloop : F.gamma.checked_gamma_lr.loop1 loopFuel (0.000000000000001 : α) x a (1.0 : α) (1.0 : α)
@@ -244,21 +257,20 @@ theorem checked_gamma_lr_series (a x r2 c2 ans2 : α) (hn : ¬ ((RFun.isNaN a = 
     F.gamma.checked_gamma_lr a x
       = .ok (((RFun.exp (((a * (RFun.ln x)) - x) - (F.gamma.ln_gamma a))) * ans2) / a) := by
   unfold F.gamma.checked_gamma_lr
-  simp only [if_neg hn, if_neg ha, if_neg hx, if_neg haz, if_neg hxz, if_neg hu, if_pos hs]
+  simp only [if_neg hn, if_neg ha, if_neg hx, if_neg haz, if_neg hu, if_pos hs]
   rw [hloop]
 /-- the series piece when the lifted loop runs out of fuel (Rust: non-termination): the sentinel -/
 theorem checked_gamma_lr_series_hang (a x : α) (hn : ¬ ((RFun.isNaN a = true) ∨ (RFun.isNaN x = true)))
     (ha : ¬ ((a ≤ (0.0 : α)) ∨ ((a == (RFun.inf : α)) = true)))
     (hx : ¬ ((x ≤ (0.0 : α)) ∨ ((x == (RFun.inf : α)) = true)))
     (haz : ¬ (R.prec.almost_eq a (0.0 : α) (R.prec.DEFAULT_F64_ACC (α := α))) = true)
-    (hxz : ¬ (R.prec.almost_eq x (0.0 : α) (R.prec.DEFAULT_F64_ACC (α := α))) = true)
     (hu : ¬ (((a * (RFun.ln x)) - x) - (F.gamma.ln_gamma a)) < -(709.78271289338399 : α))
     (hs : (x ≤ (1.0 : α)) ∨ (x ≤ a))
     (hloop : F.gamma.checked_gamma_lr.loop1 loopFuel (0.000000000000001 : α) x a (1.0 : α) (1.0 : α)
       = LoopR.hang) :
     F.gamma.checked_gamma_lr a x = panicV := by
   unfold F.gamma.checked_gamma_lr
-  simp only [if_neg hn, if_neg ha, if_neg hx, if_neg haz, if_neg hxz, if_neg hu, if_pos hs]
+  simp only [if_neg hn, if_neg ha, if_neg hx, if_neg haz, if_neg hu, if_pos hs]
   rw [hloop]
 /-- otherwise: CONTINUED FRACTION for `Q` with `eps = 1e-15`, `big = 2^52`, `big_inv = 2^-52`, from
     `y = 1 − a`, `z = x + y + 1`, `c = 0`, `(p3, p2, q3, q2) = (1, x + 1, x, z·x)`, `ans = p2/q2`;
@@ -268,7 +280,6 @@ theorem checked_gamma_lr_cf (a x y z : α) (c : Int) (p3 p2 q3 q2 ans : α)
     (ha : ¬ ((a ≤ (0.0 : α)) ∨ ((a == (RFun.inf : α)) = true)))
     (hx : ¬ ((x ≤ (0.0 : α)) ∨ ((x == (RFun.inf : α)) = true)))
     (haz : ¬ (R.prec.almost_eq a (0.0 : α) (R.prec.DEFAULT_F64_ACC (α := α))) = true)
-    (hxz : ¬ (R.prec.almost_eq x (0.0 : α) (R.prec.DEFAULT_F64_ACC (α := α))) = true)
     (hu : ¬ (((a * (RFun.ln x)) - x) - (F.gamma.ln_gamma a)) < -(709.78271289338399 : α))
     (hs : ¬ ((x ≤ (1.0 : α)) ∨ (x ≤ a)))
     (hloop : F.gamma.checked_gamma_lr.loop3 loopFuel (4503599627370496.0 : α) (2.22044604925031308085e-16 : α)
@@ -279,7 +290,7 @@ theorem checked_gamma_lr_cf (a x y z : α) (c : Int) (p3 p2 q3 q2 ans : α)
     F.gamma.checked_gamma_lr a x
       = .ok ((1.0 : α) - ((RFun.exp (((a * (RFun.ln x)) - x) - (F.gamma.ln_gamma a))) * ans)) := by
   unfold F.gamma.checked_gamma_lr
-  simp only [if_neg hn, if_neg ha, if_neg hx, if_neg haz, if_neg hxz, if_neg hu, if_neg hs]
+  simp only [if_neg hn, if_neg ha, if_neg hx, if_neg haz, if_neg hu, if_neg hs]
   rw [hloop]
 
 /-! ## 5. `checked_gamma_ur` (gamma.rs:187–252) -/
@@ -361,7 +372,7 @@ theorem gamma_ur_eq (a x : α) : F.gamma.gamma_ur a x = unwrapE (F.gamma.checked
 theorem gamma_li_eq (a x : α) : F.gamma.gamma_li a x = unwrapE (F.gamma.checked_gamma_li a x) := rfl
 theorem gamma_ui_eq (a x : α) : F.gamma.gamma_ui a x = unwrapE (F.gamma.checked_gamma_ui a x) := rfl
 
-/-! ## 7. `digamma` (gamma.rs:374–412) -/
+/-! ## 7. `digamma` (gamma.rs:371–409) -/
 
 theorem digammaC_eq : (digammaC : α) = (12.0 : α) := rfl
 theorem digammaS_eq : (digammaS : α) = (1e-6 : α) := rfl
@@ -386,7 +397,7 @@ theorem digammaSpec_chain (rec : α → α) (x : α) : digammaSpec rec x =
     if x ≤ (1e-6 : α) then digammaSmall x else
     digammaOut (F.gamma.digamma.loop1 loopFuel (12.0 : α) (0.0 : α) x) := rfl
 
-/-- gamma.rs:374–412, every level: the generated `digamma` IS the Spec table `digammaSpec` -/
+/-- gamma.rs:371–409, every level: the generated `digamma` IS the Spec table `digammaSpec` -/
 theorem digamma_rec_eq_spec (n : Nat) (x : α) :
     F.gamma.digamma.rec (n + 1) x = digammaSpec (F.gamma.digamma.rec n) x := by
   rw [digammaSpec_chain, F.gamma.digamma.rec]
@@ -426,7 +437,7 @@ theorem digamma_tail (x result z : α) (h : ¬ (((x == (RFun.negInf : α)) = tru
   rw [hloop]
   rfl
 
-/-! ## 8. `inv_digamma`, `signum` (gamma.rs:415–443) -/
+/-! ## 8. `inv_digamma`, `signum` (gamma.rs:412–440) -/
 
 theorem invDigammaTol_eq : (invDigammaTol : α) = (1e-15 : α) := rfl
 
@@ -477,6 +488,21 @@ example : ∃ a x : ℝ, ¬ ((RFun.isNaN a = true) ∨ (RFun.isNaN x = true))
     ∧ ¬ ((x ≤ (0.0 : ℝ)) ∨ ((x == (RFun.inf : ℝ)) = true)) ∧ ¬ ((x ≤ (1.0 : ℝ)) ∨ (x ≤ a))
     ∧ ¬ ((x < (1.0 : ℝ)) ∨ (x ≤ a)) := by
   refine ⟨1, 3, ?_, ?_, ?_, ?_, ?_⟩ <;> norm_num [show (RFun.inf : ℝ) = 0 from rfl]
+/-- an argument that the removed `x ≈ 0` shortcut used to catch: `a = 2, x = 1e-16` passes the prologue,
+    `almost_eq x 0.0 DEFAULT_F64_ACC` is TRUE there, and the series guard `x ≤ 1` holds -/
+example : ∃ a x : ℝ, ¬ ((RFun.isNaN a = true) ∨ (RFun.isNaN x = true))
+    ∧ ¬ ((a ≤ (0.0 : ℝ)) ∨ ((a == (RFun.inf : ℝ)) = true))
+    ∧ ¬ ((x ≤ (0.0 : ℝ)) ∨ ((x == (RFun.inf : ℝ)) = true))
+    ∧ ¬ ((R.prec.almost_eq a (0.0 : ℝ) (R.prec.DEFAULT_F64_ACC (α := ℝ))) = true)
+    ∧ ((R.prec.almost_eq x (0.0 : ℝ) (R.prec.DEFAULT_F64_ACC (α := ℝ))) = true)
+    ∧ ((x ≤ (1.0 : ℝ)) ∨ (x ≤ a)) := by
+  refine ⟨2, 1e-16, ?_, ?_, ?_, ?_, ?_, ?_⟩
+  · norm_num
+  · norm_num [show (RFun.inf : ℝ) = 0 from rfl]
+  · norm_num [show (RFun.inf : ℝ) = 0 from rfl]
+  · rw [almost_eq_finite _ _ _ (by simp)]; simp only [R.prec.DEFAULT_F64_ACC]; norm_num
+  · rw [almost_eq_finite _ _ _ (by simp)]; simp only [R.prec.DEFAULT_F64_ACC]; norm_num
+  · norm_num
 /-- NaN and `+inf` arguments are doubles -/
 example : (RFun.isNaN (RFun.nan : Float) = true) ∨ (RFun.isNaN (1.0 : Float) = true) := by decide
 example : ¬ ((RFun.isNaN (RFun.inf : Float) = true) ∨ (RFun.isNaN (1.0 : Float) = true))
